@@ -1,6 +1,6 @@
 (* C19 -- the general results instantiated with the constants regenerated from the sources. *)
 From Coq Require Import List ZArith NArith Bool Lia.
-From Kenlm Require Import Gen.FloatToStringC19 C19.FormatModel C19.FormatProofs C18.FilePieceModel.
+From Kenlm Require Import Gen.FloatToStringC19 Gen.FileStreamC19 C19.FormatModel C19.FormatProofs C18.FilePieceModel.
 Import ListNotations.
 Local Open Scope Z_scope.
 
@@ -76,3 +76,16 @@ Example layout_bound_hypotheses_satisfiable :
   1 <= zlen [49%N] <= c19_max_digits_double /\ c19_min_exp10_double <= 1 - 1 <= c19_max_exp10_double /\ Z.abs (1 - 1) < 100000 /\
   shortest kenlm_params false false [49%N] 1 = [49%N] /\ ends_number [] /\ ends_number [32%N].
 Proof. repeat split; try (vm_compute; discriminate); try reflexivity. Qed.
+
+(* FileStream(fd, buffer_size): the two size expressions of the constructor (regenerated from util/file_stream.hh) agree:
+   end_ never lies beyond the allocation, and the buffer can always take one in-place number (kToStringMaxBytes).  Hence
+   whatever Ensure(amount) returns for amount <= kToStringMaxBytes, `amount` bytes from there are inside the allocation. *)
+Theorem filestream_reservation : forall n amount current,
+  0 <= n -> 0 <= current <= c19_fs_capacity n -> 0 <= amount <= c19_ktostring_max_bytes ->
+  c19_fs_capacity n <= c19_fs_alloc n /\
+  0 <= fs_ensure (c19_fs_capacity n) amount current /\
+  fs_ensure (c19_fs_capacity n) amount current + amount <= c19_fs_alloc n.
+Proof.
+  intros n amount current Hn Hc Ha. unfold fs_ensure, c19_fs_capacity, c19_fs_alloc in *.
+  destruct (Z.ltb_spec (Z.max n c19_ktostring_max_bytes) (current + amount)); lia.
+Qed.
